@@ -17,7 +17,20 @@ No interpretation happens here except:
     the specification "mut:m" returns), admitted only when no alias of self can exist (see
     Translator.self_method_call);
   * for a method, the class's constant attributes (`name = <literal>` in the class body) are emitted as
-    `classattrs_<Class>_<method>` next to `bases_..`."""
+    `classattrs_<Class>_<method>` next to `bases_..`;
+  * a nested loop target `for a, (b, c) in it: body` becomes `for a, %1 in it: b, c = %1; body` with a
+    name %1 that is not a Python identifier (same bindings, same ValueError on a wrong length);
+  * `x[:, i] = e` becomes SSetCol (x fresh, as for the other mutations);
+  * numpy's dtype classes used as values (`np.float32`) become the opaque constant "<np.float32>";
+    what consumes them (`np.result_type`, `.astype`, `dtype=`) is given by specification in the templates.
+  * `a in e` / `a not in e` for a non-literal e become calls of the builtin "in";
+  * stateful local objects: a name bound to `Cls(...)`, Cls an imported capitalised name (a constructor: a new
+    object nobody else holds), that has not escaped (Fresh, kind "object") may receive method calls that mutate
+    it.  PyLite has no store, so such a call, which must be a whole statement `x.m(args)` / `t = x.m(args)`,
+    becomes `x, %r = meth!:m(x, args); t = %r`: the callee "meth!:m" (given by specification in the template)
+    returns the receiver's new state and the result.  `if c in x.m(args):` with a constant c is first hoisted
+    to `x, %t = meth!:m(x, args); if c in %t:` (the call is the first thing the test evaluates).  A method call
+    on such an object anywhere else in an expression is outside the fragment."""
 import ast
 import os
 from fractions import Fraction
@@ -50,7 +63,8 @@ def const(v):
     raise Unsupported("constant %r" % (v,))
 
 
-BIN = {ast.Add: "Add", ast.Sub: "Sub", ast.Mult: "Mul", ast.Div: "Div", ast.FloorDiv: "FloorDiv", ast.Mod: "Mod"}
+BIN = {ast.Add: "Add", ast.Sub: "Sub", ast.Mult: "Mul", ast.Div: "Div", ast.FloorDiv: "FloorDiv", ast.Mod: "Mod",
+       ast.Pow: "Pow"}
 CMP = {ast.Lt: "CLt", ast.LtE: "CLe", ast.Gt: "CGt", ast.GtE: "CGe", ast.Eq: "CEq", ast.NotEq: "CNe"}
 
 
@@ -75,6 +89,7 @@ def is_int_const(node):
 
 
 TYPE_NAMES = ("bool", "int", "float")
+DTYPE_CONSTS = ("np.float32", "np.float64", "np.int32", "np.int64")    # module attributes admitted as opaque constants
 FUNC_NAMES = ("sum", "len", "abs", "min", "max")
 
 
@@ -93,7 +108,35 @@ class Translator:
             return None if base is None else base + "." + node.attr
         return None
 
-    def call(self, e):
+    def fresh_object(self, node):
+        return isinstance(node, ast.Name) and node.id not in self.modules and self.cur_state.get(node.id) == "object"
+
+    def obj_call(self, s, state):
+        """s is `x.m(args)` or `t = x.m(args)` with x a fresh local object -> (target or None, the call)"""
+        if isinstance(s, ast.Expr):
+            t, e = None, s.value
+        elif isinstance(s, ast.Assign) and len(s.targets) == 1:
+            t, e = s.targets[0], s.value
+        else:
+            return None
+        if (isinstance(e, ast.Call) and isinstance(e.func, ast.Attribute) and isinstance(e.func.value, ast.Name)
+                and e.func.value.id not in self.modules and state.get(e.func.value.id) == "object"):
+            if t is not None and not isinstance(t, (ast.Name, ast.Tuple, ast.List)):
+                return None
+            return t, e
+        return None
+
+    def hoisted_test(self, test, state):
+        """`c in x.m(args)` / `c not in x.m(args)`, c a constant, x a fresh local object -> (negated, c, call)"""
+        if (isinstance(test, ast.Compare) and len(test.ops) == 1 and isinstance(test.ops[0], (ast.In, ast.NotIn))
+                and isinstance(test.left, ast.Constant)):
+            e = test.comparators[0]
+            if (isinstance(e, ast.Call) and isinstance(e.func, ast.Attribute) and isinstance(e.func.value, ast.Name)
+                    and e.func.value.id not in self.modules and state.get(e.func.value.id) == "object"):
+                return isinstance(test.ops[0], ast.NotIn), test.left, e
+        return None
+
+    def call(self, e, mut=False):
         f = e.func
         pos = list(e.args)
         if any(k.arg is None for k in e.keywords):
@@ -151,6 +194,11 @@ class Translator:
             name = self.dotted(f)
             if name is not None:
                 return "(ECall %s %s)" % (cstr(name + suffix), lst(args))
+            if mut:
+                return "(ECall %s %s)" % (cstr("meth!:" + f.attr + suffix), lst([self.expr(f.value)] + args))
+            if self.fresh_object(f.value):
+                raise Unsupported("method call on the local object %s inside an expression (it may change the object)"
+                                  % f.value.id)
             return "(ECall %s %s)" % (cstr("meth:" + f.attr + suffix), lst([self.expr(f.value)] + args))
         raise Unsupported("callee " + ast.dump(f)[:100])
 
@@ -209,9 +257,12 @@ class Translator:
                     if not (isinstance(right, ast.Constant) and right.value is None):
                         raise Unsupported("is <non-None>")
                     parts.append("(EIsNone %s %s)" % (expr(left), "true" if isinstance(op, ast.IsNot) else "false"))
+                elif isinstance(op, (ast.In, ast.NotIn)) and not isinstance(right, (ast.List, ast.Tuple)):
+                    if len(e.ops) > 1:
+                        raise Unsupported("chained in")
+                    t_ = "(ECall %s %s)" % (cstr("in"), lst([expr(left), expr(right)]))
+                    parts.append("(ENot %s)" % t_ if isinstance(op, ast.NotIn) else t_)
                 elif isinstance(op, (ast.In, ast.NotIn)):
-                    if not isinstance(right, (ast.List, ast.Tuple)):
-                        raise Unsupported("in <non-literal>")
                     parts.append("(EIn %s %s %s)" % (expr(left), lst([expr(x) for x in right.elts]),
                                                      "true" if isinstance(op, ast.NotIn) else "false"))
                 elif type(op) in CMP:
@@ -226,6 +277,8 @@ class Translator:
         if isinstance(e, ast.Call):
             return self.call(e)
         if isinstance(e, ast.Attribute):
+            if self.dotted(e) in DTYPE_CONSTS:
+                return "(EConst (VS %s))" % cstr("<%s>" % self.dotted(e))
             if self.dotted(e) is not None:
                 raise Unsupported("module attribute " + self.dotted(e))
             return "(ECall %s %s)" % (cstr("attr:" + e.attr), lst([expr(e.value)]))
@@ -238,6 +291,8 @@ class Translator:
             if isinstance(sl, ast.Slice):
                 if sl.step is not None:
                     raise Unsupported("slice step")
+                if sl.lower is None and sl.upper is not None and not is_int_const(sl.upper):
+                    return "(ESliceToE %s %s)" % (expr(e.value), expr(sl.upper))
                 if sl.lower is None and sl.upper is not None:
                     return "(ESliceTo %s %s)" % (expr(e.value), cZ(int_const(sl.upper)))
                 if sl.lower is not None and sl.upper is None and int_const(sl.lower) >= 0:
@@ -288,6 +343,25 @@ class Translator:
     def stmts(self, body):
         out = []
         for pos_, s in enumerate(body):
+            self.cur_state = getattr(s, "_fresh", {})
+            oc = self.obj_call(s, self.cur_state)
+            if oc is not None:
+                # x.m(args) on a fresh local object: x, %r = meth!:m(x, args); target = %r
+                t, e = oc
+                out.append("SAssign %s %s" % (lst([cstr(e.func.value.id), cstr("%r")]), self.call(e, mut=True)))
+                if t is not None:
+                    out.append("SAssign %s (EVar %s)" % (lst([cstr(n) for n in target_names(t)]), cstr("%r")))
+                continue
+            if isinstance(s, ast.If):
+                ht = self.hoisted_test(s.test, self.cur_state)
+                if ht is not None:
+                    neg, c, e = ht
+                    out.append("SAssign %s %s" % (lst([cstr(e.func.value.id), cstr("%t")]), self.call(e, mut=True)))
+                    test = "(ECall %s %s)" % (cstr("in"), lst([self.expr(c), "(EVar %s)" % cstr("%t")]))
+                    if neg:
+                        test = "(ENot %s)" % test
+                    out.append("SIf %s %s %s" % (test, self.stmts(s.body), self.stmts(s.orelse)))
+                    continue
             if (isinstance(s, ast.Assign) and len(s.targets) == 1 and isinstance(s.targets[0], ast.Name)
                     and isinstance(s.value, ast.GeneratorExp)):
                 # x = (generator): materialised as a list.  Equivalent only if the generator is consumed
@@ -320,7 +394,13 @@ class Translator:
                             raise Unsupported("slice assignment form")
                         out.append("SSetSlice %s %s %s" % (cstr(t.value.id), cZ(int_const(sl.upper)), self.expr(s.value)))
                     elif isinstance(t.slice, ast.Tuple):
-                        raise Unsupported("multi-dimensional assignment")
+                        # x[:, i] = e
+                        el = t.slice.elts
+                        if not (len(el) == 2 and isinstance(el[0], ast.Slice) and el[0].lower is None
+                                and el[0].upper is None and el[0].step is None
+                                and not isinstance(el[1], (ast.Slice, ast.Tuple, ast.Starred))):
+                            raise Unsupported("multi-dimensional assignment")
+                        out.append("SSetCol %s %s %s" % (cstr(t.value.id), self.expr(el[1]), self.expr(s.value)))
                     else:
                         out.append("SSetItem %s %s %s" % (cstr(t.value.id), self.expr(t.slice), self.expr(s.value)))
                 else:
@@ -343,8 +423,11 @@ class Translator:
                 if s.orelse:
                     raise Unsupported("for ... else")
                 self.iterated.add(id(s.iter))
-                out.append("SFor %s %s %s" % (lst([cstr(n) for n in target_names(s.target)]), self.expr(s.iter),
-                                              self.stmts(s.body)))
+                names, unpack = loop_targets(s.target)
+                body_ = self.stmts(s.body)
+                if unpack:
+                    body_ = "(" + " :: ".join(unpack) + " :: " + body_ + ")"
+                out.append("SFor %s %s %s" % (lst([cstr(n) for n in names]), self.expr(s.iter), body_))
             elif isinstance(s, ast.Raise):
                 out.append("SRaise")
             elif isinstance(s, ast.Return):
@@ -373,6 +456,33 @@ def target_names(t):
     raise Unsupported("assignment target " + ast.dump(t)[:100])
 
 
+def loop_targets(t):
+    """for-loop target -> (names bound by the loop, unpacking statements put in front of the body).
+    One level of nesting: `for a, (b, c) in it` binds a and a temporary %k, and the body starts with
+    `b, c = %k` (% cannot occur in a Python identifier, so the temporary is fresh)."""
+    if isinstance(t, ast.Name) or all(isinstance(x, ast.Name) for x in t.elts):
+        return target_names(t), []
+    names, unpack = [], []
+    if not isinstance(t, (ast.Tuple, ast.List)):
+        raise Unsupported("loop target " + ast.dump(t)[:100])
+    for k, x in enumerate(t.elts):
+        if isinstance(x, ast.Name):
+            names.append(x.id)
+        else:
+            tmp = "%%%d" % (k + 1)
+            names.append(tmp)
+            unpack.append("SAssign %s (EVar %s)" % (lst([cstr(n) for n in target_names(x)]), cstr(tmp)))
+    return names, unpack
+
+
+def all_target_names(t):
+    if isinstance(t, ast.Name):
+        return [t.id]
+    if isinstance(t, (ast.Tuple, ast.List)):
+        return [n for x in t.elts for n in all_target_names(x)]
+    raise Unsupported("loop target " + ast.dump(t)[:100])
+
+
 # ---------------------------------------------------------------------------------------------------
 # Freshness: PyLite models mutation by rebinding the mutated variable.  We admit a mutation of x only
 # where x certainly holds an object created in this function that no other name / container / callee
@@ -383,6 +493,7 @@ def target_names(t):
 # a name that occurs in the loop's iterable.
 FRESH_LIST_CALLS = {"list"}
 FRESH_ARRAY_CALLS = {"np.array"}
+FRESH_ARRAY_CALLS_KW = {"np.zeros", "np.empty"}     # fresh also when called with keywords (dtype=)
 
 
 class Fresh:
@@ -392,8 +503,13 @@ class Fresh:
     def kind(self, e):
         if isinstance(e, (ast.List, ast.ListComp)):
             return "list"
+        if (isinstance(e, ast.Call) and isinstance(e.func, ast.Name) and e.func.id in self.tr.modules
+                and e.func.id[:1].isupper() and not any(isinstance(a, ast.Starred) for a in e.args)):
+            return "object"      # Cls(...), Cls an imported class: a new object that nobody else holds
         if isinstance(e, ast.Constant) and e.value is None:
             return "none"        # not an object that can be mutated; joins with a fresh list / array
+        if isinstance(e, ast.Call) and self.tr.dotted(e.func) in FRESH_ARRAY_CALLS_KW:
+            return "array"
         if isinstance(e, ast.Call) and not e.keywords:
             if isinstance(e.func, ast.Name) and e.func.id in FRESH_LIST_CALLS:
                 return "list"
@@ -413,6 +529,11 @@ class Fresh:
             pass                 # x is None: no alias
         elif isinstance(e, ast.Subscript) and isinstance(e.value, ast.Name):
             self.escaping(e.slice, out)
+        elif isinstance(e, ast.BinOp):
+            # x.a as an operand of arithmetic: the result is a new object, no alias of x survives
+            for c in (e.left, e.right):
+                if not (isinstance(c, ast.Attribute) and isinstance(c.value, ast.Name)):
+                    self.escaping(c, out)
         elif (isinstance(e, ast.Call) and isinstance(e.func, ast.Name) and e.func.id == "len" and len(e.args) == 1
               and isinstance(e.args[0], ast.Name) and not e.keywords):
             pass
@@ -443,9 +564,42 @@ class Fresh:
         if state.get(x) not in kinds:
             raise Unsupported("%s of %s, which may be aliased (not a fresh %s)" % (what, x, "/".join(kinds)))
 
+    def call_args_escaping(self, e, out):
+        for a in e.args:
+            self.escaping(a, out)
+        for k in e.keywords:
+            self.escaping(k.value, out)
+
     def block(self, body, state, frozen):
         for s in body:
             esc = set()
+            s._fresh = dict(state)       # what the translator may rely on at this statement
+            oc = self.tr.obj_call(s, state)
+            if oc is not None:
+                # x.m(args), x a fresh local object: it stays fresh unless it is passed to its own method
+                t, e = oc
+                x = e.func.value.id
+                self.call_args_escaping(e, esc)
+                if x in esc or x in frozen:
+                    raise Unsupported("method call on %s, which may be aliased" % x)
+                self.drop(state, esc)
+                if t is not None:
+                    self.drop(state, target_names(t))
+                continue
+            if isinstance(s, ast.If) and self.tr.hoisted_test(s.test, state) is not None:
+                _, _, e = self.tr.hoisted_test(s.test, state)
+                x = e.func.value.id
+                self.call_args_escaping(e, esc)
+                if x in esc or x in frozen:
+                    raise Unsupported("method call on %s, which may be aliased" % x)
+                self.drop(state, esc)
+                a = dict(state)
+                b = dict(state)
+                self.block(s.body, a, frozen)
+                self.block(s.orelse, b, frozen)
+                state.clear()
+                state.update(self.join(a, b))
+                continue
             if isinstance(s, ast.Assign):
                 t = s.targets[0]
                 self.escaping(s.value, esc)
@@ -470,7 +624,11 @@ class Fresh:
                     self.drop(state, esc)
                     self.need(state, s.target.value.id, ("list", "array"), frozen, "item update")
                 else:
+                    # x op= e: a new object for numbers; in place for a list / array, which stays fresh if it was
+                    keep = state.get(s.target.id) if s.target.id not in esc else None
                     self.drop(state, esc | {s.target.id})
+                    if keep in ("list", "array") and s.target.id not in frozen:
+                        state[s.target.id] = keep
             elif isinstance(s, ast.If):
                 self.escaping(s.test, esc)
                 self.drop(state, esc)
@@ -482,11 +640,11 @@ class Fresh:
                 state.update(self.join(a, b))
             elif isinstance(s, ast.For):
                 self.escaping(s.iter, esc)
-                self.drop(state, esc | set(target_names(s.target)))
+                self.drop(state, esc | set(all_target_names(s.target)))
                 inner_frozen = frozen | {n.id for n in ast.walk(s.iter) if isinstance(n, ast.Name)}
                 while True:
                     a = dict(state)
-                    self.drop(a, target_names(s.target))
+                    self.drop(a, all_target_names(s.target))
                     self.block(s.body, a, inner_frozen)
                     joined = self.join(state, a)
                     if joined == state:
@@ -581,8 +739,9 @@ def translate(path, names):
             params = [x.arg for x in a.args]
             tr.function = n
             tr.locals = set(params) | {x.id for x in ast.walk(n) if isinstance(x, ast.Name) and isinstance(x.ctx, ast.Store)}
+            tr.cur_state = {}
+            Fresh(tr).block([s for s in n.body], {}, frozenset())     # also records the state at each statement
             body = tr.stmts(n.body)
-            Fresh(tr).block([s for s in n.body], {}, frozenset())
             ident = qual.replace(".", "_")
             found[qual] = "Definition src_%s : func :=\n  {| f_params := %s;\n     f_body := %s |}.\n" % (
                 ident, lst([cstr(p) for p in params]), body)
